@@ -637,5 +637,168 @@ theorem getitemCore_spec (g : GCXS Int) (key : List NIx) (hwf : g.WF) (hv : GVal
       sel_all_true _ j (by rw [sel_length _ _ hcml, InB_length hj, sel_length _ _ hLlen]) hfull,
       sel_all_true _ (sel out L) (by rw [sel_length _ _ hcml, sel_length _ _ hLlen]) hfull]
     exact q4 g.fill _ (by rw [hR]; exact ravel_lt hj)
+theorem srcOf_ints : ∀ (key : List NIx), key.any keyOut = false → srcOf key [] = key.map keyInt
+  | [], _ => rfl
+  | k :: rest, h => by
+    rw [List.any_cons, Bool.or_eq_false_iff] at h
+    unfold srcOf
+    rw [h.1]
+    simp only [Bool.false_eq_true, if_false, List.map_cons, srcOf_ints rest h.2]
+    cases k with
+    | int v => simp [keyArr, keyInt]
+    | slice a b s => simp [keyOut] at h
+    | newaxis => simp [keyOut] at h
+    | arr xs => simp [keyOut] at h
+
+theorem getD_map_keyInt (key : List NIx) (a : Nat) : (key.map keyInt).getD a 0 = keyInt (key.getD a (.int 0)) := by
+  simp only [List.getD_eq_getElem?_getD, List.getElem?_map]
+  cases key[a]? with
+  | none => simp [keyInt]
+  | some k => simp
+
+/-- **`get_single_element`.**  For a well-formed n-d GCXS array and a valid all-integer key, `_getitem` returns the
+scalar stored at those integers (the fill value when nothing is stored there). -/
+theorem getitemCore_scalar (g : GCXS Int) (key : List NIx) (hwf : g.WF) (hv : GValid key g.shape)
+    (ho : key.any keyOut = false) :
+    g.getitemCore key = .ok (.scalar (g.tocoo.get (srcOf key []))) ∧ InB (srcOf key []) g.shape := by
+  have hwf' := hwf
+  unfold WF at hwf'
+  cases hc : g.caxes with
+  | none => rw [hc] at hwf'; exact absurd hwf' (by simp)
+  | some c =>
+  rw [hc] at hwf'
+  obtain ⟨_, _, hpw, hclt, hcsr⟩ := hwf'
+  have hcnd : c.Nodup := hpw.imp (fun {a b} hab => by omega)
+  have hall : key.all (fun k => !keyOut k) = true := by
+    rw [List.all_eq_true]
+    intro k hk
+    have := List.any_eq_false.mp ho k hk
+    simpa using this
+  obtain ⟨hAll, hU⟩ := GValid_facts key g.shape hv
+  -- the operand index
+  have hi : InB (srcOf key []) g.shape := by
+    have hj : InB ([] : Idx) (sel (key.map keyOut) ((key.map keyArr).map List.length)) := by
+      rw [sel_all_false _ _ (by rw [List.any_map]; exact ho)]; trivial
+    exact (index_core key g.shape hv (maskOf g.shape.length c) (maskOf_length _ _) [] hj).1
+  refine ⟨?_, hi⟩
+  unfold getitemCore
+  rw [hc]
+  simp only [hall, if_true]
+  congr 2
+  unfold getSingle
+  have hrk : (axisOrder g.shape.length c).map (fun a => keyInt (key.getD a (.int 0)))
+      = gather (srcOf key []) (axisOrder g.shape.length c) := by
+    rw [srcOf_ints key ho]
+    unfold gather
+    apply List.map_congr_left
+    intro a _
+    rw [getD_map_keyInt]
+  simp only []
+  rw [hrk]
+  have hlinD : ravel (gather (srcOf key []) (axisOrder g.shape.length c)) (gather g.shape (axisOrder g.shape.length c))
+      = linOf g.shape c (srcOf key []) := rfl
+  have hCD : prod (List.drop c.length (gather g.shape (axisOrder g.shape.length c))) = csrC g.shape c := rfl
+  rw [hlinD, hCD, (tocoo_get g c hc hwf).2.2.2.2 _ hi]
+  generalize hlin : linOf g.shape c (srcOf key []) = lin
+  have hrow : lin / csrC g.shape c < csrR g.shape c := by
+    apply Nat.div_lt_of_lt_mul
+    rw [Nat.mul_comm, ← hlin]
+    exact linOf_lt g.shape c hcnd hclt hi
+  have hsorted := hcsr.2.2.2.2.2.1 _ hrow
+  unfold csrRow
+  have hlen : (rowSlice g.indices (g.indptr.getD (lin / csrC g.shape c) 0) (g.indptr.getD (lin / csrC g.shape c + 1) 0)).length =
+      (rowSlice g.data (g.indptr.getD (lin / csrC g.shape c) 0) (g.indptr.getD (lin / csrC g.shape c + 1) 0)).length := by
+    rw [rowSlice_length, rowSlice_length, hcsr.2.2.2.1]
+  rw [rowGet_zip _ _ _ _ (by omega)]
+  by_cases hmem : lin % csrC g.shape c ∈ rowSlice g.indices (g.indptr.getD (lin / csrC g.shape c) 0) (g.indptr.getD (lin / csrC g.shape c + 1) 0)
+  · rw [if_pos ((hit_iff_mem _ _ hsorted).mpr hmem), if_pos hmem, searchsorted_of_mem _ _ hsorted hmem,
+      rowSlice_getD g.data _ _ _ g.fill 0 (by have := List.idxOf_lt_length_of_mem hmem; omega), Nat.add_comm]
+  · rw [if_neg (fun h => hmem ((hit_iff_mem _ _ hsorted).mp h)), if_neg hmem]
+
+/-- for keys without index arrays, validity, result shape and operand index are those of the COO theorems of
+`Props/C02` (`Spec.ValidIdx`, `outShape`, `Spec.compose`) -/
+theorem basic_key_facts : ∀ (key : List NIx) (shape : List Nat), GValid key shape → NoArr key →
+    ValidIdx key shape ∧ gOutShape key = outShape key false ∧ hasOut key = key.any keyOut ∧
+    ∀ j, InB j (gOutShape key) → srcOf key j = compose key j
+  | [], [], _, _ => by simp [ValidIdx, gOutShape, outShape, hasOut, srcOf, compose]
+  | .int n :: rest, d :: ds, hv, hn => by
+    obtain ⟨h1, h2, h3, h4⟩ := basic_key_facts rest ds hv.2 hn
+    refine ⟨⟨hv.1, h1⟩, ?_, ?_, ?_⟩
+    · simpa [gOutShape, outShape, keyOut] using h2
+    · simpa [hasOut, keyOut] using h3
+    · intro j hj
+      have hj' : InB j (gOutShape rest) := by simpa [gOutShape, keyOut] using hj
+      simp [srcOf, compose, keyOut, keyArr, h4 j hj']
+  | .slice a b s :: rest, d :: ds, hv, hn => by
+    obtain ⟨h1, h2, h3, h4⟩ := basic_key_facts rest ds hv.2 hn
+    have hg : gOutShape (.slice a b s :: rest) = sliceLen a b s :: gOutShape rest := by
+      unfold gOutShape
+      rw [List.filter_cons, if_pos (by rfl), List.map_cons]
+      simp only [keyArr, arange_length]
+    refine ⟨⟨hv.1, h1⟩, ?_, ?_, ?_⟩
+    · rw [hg, h2]; rfl
+    · simp [hasOut, keyOut]
+    · intro j hj
+      rw [hg] at hj
+      cases j with
+      | nil => simp at hj
+      | cons t j' =>
+        simp only [srcOf, keyOut, if_true, List.headD_cons, List.tail_cons, compose, keyArr]
+        rw [arange_getD a s _ t hj.1, h4 j' hj.2]
+  | .arr _ :: _, _, _, hn => absurd hn (by simp [NoArr])
+  | [], _ :: _, h, _ => absurd h (by simp [GValid])
+  | .newaxis :: _, _, h, _ => absurd h (by simp [GValid])
+  | .int _ :: _, [], h, _ => absurd h (by simp [GValid])
+  | .slice _ _ _ :: _, [], h, _ => absurd h (by simp [GValid])
+
+theorem isFull_noArr : ∀ (idx : List NIx) (shape : List Nat), idx.length = shape.length →
+    ((List.zip idx shape).all fun p => match p.1 with
+      | .slice a b s => decide (a = 0 ∧ b = (p.2 : Int) ∧ s = 1)
+      | _ => false) = true → NoArr idx ∧ GValid idx shape
+  | [], [], _, _ => by simp [NoArr, GValid]
+  | [], _ :: _, h, _ => by simp at h
+  | _ :: _, [], h, _ => by simp at h
+  | k :: rest, d :: ds, hl, h => by
+    rw [List.zip_cons_cons, List.all_cons, Bool.and_eq_true] at h
+    obtain ⟨ih1, ih2⟩ := isFull_noArr rest ds (by simpa using hl) h.2
+    cases k with
+    | int n => simp at h
+    | newaxis => simp at h
+    | arr xs => simp at h
+    | slice a b s =>
+      have h1 := h.1
+      simp only [decide_eq_true_eq] at h1
+      obtain ⟨ha, hb, hs⟩ := h1
+      refine ⟨ih1, ⟨?_, ih2⟩⟩
+      left
+      subst ha hb hs
+      refine ⟨by omega, by omega, by omega, fun _ => by omega⟩
+
+/-- **`getitem` (full-slice shortcut included) refines NumPy indexing.** -/
+theorem getitemN_spec (g : GCXS Int) (key : List NIx) (hwf : g.WF) (hv : GValid key g.shape)
+    (ho : key.any keyOut = true) :
+    ∃ r, g.getitemN key = .ok (.arr r) ∧ r.shape = gOutShape key ∧ r.fill = g.fill ∧ (r.WF ∨ r.WF1) ∧
+      r.tocoo.shape = gOutShape key ∧ r.tocoo.fill = g.fill ∧
+      ∀ j, InB j (gOutShape key) → InB (srcOf key j) g.shape ∧ r.tocoo.get j = g.tocoo.get (srcOf key j) := by
+  unfold getitemN
+  by_cases hfull : isFullIndex key g.shape = true
+  · rw [if_pos hfull]
+    have hf := hfull
+    unfold isFullIndex at hf
+    simp only [Bool.and_eq_true, decide_eq_true_eq] at hf
+    obtain ⟨hna, _⟩ := isFull_noArr key g.shape hf.1.1 hf.2
+    obtain ⟨_, hsh, _, hsrc⟩ := basic_key_facts key g.shape hv hna
+    obtain ⟨hsh2, hcomp⟩ := isFullIndex_spec false key g.shape hfull
+    have hshape : gOutShape key = g.shape := by rw [hsh, hsh2]
+    cases hc : g.caxes with
+    | none => unfold WF at hwf; rw [hc] at hwf; exact absurd hwf (by simp)
+    | some c =>
+      obtain ⟨t1, t2, _, _, _⟩ := tocoo_get g c hc hwf
+      refine ⟨g, rfl, hshape.symm, rfl, Or.inl hwf, by rw [t1, hshape], t2, fun j hj => ?_⟩
+      rw [hsrc j hj, hcomp j (by rw [InB_length hj, hshape])]
+      exact ⟨by rw [← hshape]; exact hj, rfl⟩
+  · rw [if_neg hfull]
+    exact getitemCore_spec g key hwf hv ho
+
 end GCXS
 end SparseV
